@@ -162,6 +162,7 @@ type SrvFid struct {
 	fid       uint32
 	refcount  int
 	destroyed bool        // FidDestroy has been called
+	pending   bool        // being created by a request that has not been answered yet
 	opened    bool        // True if the SrvFid is opened
 	Fconn     *Conn       // Connection the SrvFid belongs to
 	Omode     uint8       // Open mode (O* flags), if the fid is opened
@@ -476,8 +477,20 @@ func (conn *Conn) FidGet(fidno uint32) *SrvFid {
 	conn.Lock()
 	fid, present := conn.fidpool[fidno]
 	conn.Unlock()
-	if present {
-		fid.IncRef()
+	if !present {
+		return nil
+	}
+
+	// a fid whose Tattach, Tauth or Twalk is still executing does not exist yet:
+	// the file server has not set it up
+	fid.Lock()
+	pending := fid.pending
+	if !pending {
+		fid.refcount++
+	}
+	fid.Unlock()
+	if pending {
+		return nil
 	}
 
 	return fid
@@ -497,6 +510,7 @@ func (conn *Conn) FidNew(fidno uint32) *SrvFid {
 	fid := new(SrvFid)
 	fid.fid = fidno
 	fid.refcount = 1
+	fid.pending = true
 	fid.Fconn = conn
 	conn.fidpool[fidno] = fid
 	conn.Unlock()
@@ -506,6 +520,15 @@ func (conn *Conn) FidNew(fidno uint32) *SrvFid {
 
 func (conn *Conn) String() string {
 	return conn.Srv.Id + "/" + conn.Id
+}
+
+// retain keeps a newly created fid in the table once the request that created it
+// has succeeded; from now on other requests may use it.
+func (fid *SrvFid) retain() {
+	fid.Lock()
+	fid.refcount++
+	fid.pending = false
+	fid.Unlock()
 }
 
 // Increase the reference count for the fid.
